@@ -21,6 +21,7 @@ type Config struct {
 	Pkg          string
 	Harness      string
 	Files        []string // harness source files (overlaid into the package dir)
+	XFiles       map[string][]string // import path -> files overlaid into that (other) package's dir
 	Workers      int
 	MaxSteps     int64
 	MaxDecisions int
@@ -92,6 +93,23 @@ func LoadProgram(cfg *Config) (*Program, error) {
 			return nil, err
 		}
 		overlay[pkgDir+"/"+baseName(f)] = data
+	}
+	for ip, fs := range cfg.XFiles {
+		other, err := packages.Load(pc, ip)
+		if err != nil {
+			return nil, err
+		}
+		if len(other) != 1 || len(other[0].GoFiles) == 0 {
+			return nil, fmt.Errorf("cannot resolve package %s for -xfile", ip)
+		}
+		od := dirOf(other[0].GoFiles[0])
+		for _, f := range fs {
+			data, err := os.ReadFile(f)
+			if err != nil {
+				return nil, err
+			}
+			overlay[od+"/"+baseName(f)] = data
+		}
 	}
 	lc := &packages.Config{Mode: packages.LoadAllSyntax, Dir: cfg.Dir, Overlay: overlay, Env: loadEnv()}
 	pkgs, err := packages.Load(lc, cfg.Pkg)
